@@ -223,6 +223,14 @@ def validate_traces(scratch, trace_file, trace_name, module, cfg, max_shards=Non
     n = sum(1 for _ in open(trace_file))
     if n == 0:
         return 0, [], 0
+    keep = os.environ.get("VERIF_KEEP_TRACES")
+    if keep:
+        # harvest a few recorded traces (tools/selftest_binding.py corrupts them to demonstrate the binding)
+        os.makedirs(keep, exist_ok=True)
+        with open(os.path.join(keep, module.replace(".tla", "") + "." + trace_name), "a") as o:
+            for i, line in enumerate(open(trace_file)):
+                if i % max(1, n // 12) == 0:
+                    o.write(line)
     shards = shard_file(trace_file, min(max_shards or NCPU, max(1, n // 50 + 1)), scratch, trace_name)
     for d, _ in shards:
         copy_specs(d)
@@ -300,6 +308,11 @@ def finish(res):
         rc = 1
         if len(seen) >= 10:
             break
+    if new:
+        sigs = {}
+        for v in new:
+            sigs[v["signature"]] = sigs.get(v["signature"], 0) + 1
+        res.coverage["violation_signatures"] = dict(sorted(sigs.items(), key=lambda kv: -kv[1])[:100])
     ev = dict(property_id=res.pid, tier=res.tier, seed=seed(), level=res.level, coverage=res.coverage,
               assumptions=res.assumptions, wall_s=round(time.time() - res.t0, 2), violations=len(new),
               known_findings=sum(c for _, c in kf.values()), repo=REPO)
